@@ -18,12 +18,12 @@ type write struct {
 
 // ctx is the execution context of one process activation.
 type ctx struct {
-	s       *Sim
-	where   string
-	overlay bool // blocking writes go to a private overlay until committed
-	ovS     map[int]*ovEntry
-	ovM     map[memKey]*ovEntry
-	nba     []write
+	s             *Sim
+	where         string
+	overlay       bool // blocking writes go to a private overlay until committed
+	ovS           map[int]*ovEntry
+	ovM           map[memKey]*ovEntry
+	nba           []write
 	nbaAsBlocking bool // combinational always blocks: "<=" behaves like "="
 	changed       bool // a direct (non-overlay) write changed the state
 }
